@@ -46,6 +46,7 @@ type Contract struct {
 	Ensures  []*Clause
 	Modifies []*Clause
 	Covers   []*Clause
+	Guards   map[string]*Clause // "name#n" -> condition that must hold when the n-th call through value `name` happens
 	Loops    map[int]*LoopSpec
 	Pure     bool
 	Trusted  bool
@@ -115,7 +116,7 @@ func fullKey(pkgPath, key string) string {
 var clauseKeywords = map[string]bool{
 	"func": true, "spec": true, "lemma": true, "props": true, "requires": true, "ensures": true,
 	"modifies": true, "loop": true, "invariant": true, "decreases": true, "pure": true, "trusted": true,
-	"maypanic": true, "cover": true, "typeinv": true, "opt": true, "noverify": true, "package": true, "rec": true,
+	"maypanic": true, "cover": true, "guardcall": true, "typeinv": true, "opt": true, "noverify": true, "package": true, "rec": true,
 }
 
 // ParseFile reads one contract file. pkgPath is the import path the file belongs to
@@ -233,6 +234,16 @@ func (cs *ContractSet) ParseFile(file, pkgPath string) error {
 				}
 			case "cover":
 				cur.Covers = append(cur.Covers, mk(rest))
+			case "guardcall":
+				// guardcall name#n: expr
+				k := strings.Index(rest, ":")
+				if k < 0 {
+					return fmt.Errorf("%s:%d: guardcall needs ':'", file, ln)
+				}
+				if cur.Guards == nil {
+					cur.Guards = map[string]*Clause{}
+				}
+				cur.Guards[strings.TrimSpace(rest[:k])] = mk(strings.TrimSpace(rest[k+1:]))
 			case "pure":
 				cur.Pure = true
 			case "trusted":
